@@ -10,14 +10,14 @@ use crate::util::caps_from_spec;
 use datamatrix::data::DataEncodingError;
 
 /// materialise and certify an R-OPT script: Some(stream) iff R-ENC emits it and R-DEC reads the input back
-fn certify(ctx: &mut Ctx, input: &[u8], sc: &enc::Script) -> Option<Vec<u8>> {
+fn certify(ctx: &mut Ctx, input: &[u8], full: &[u8], sc: &enc::Script) -> Option<Vec<u8>> {
     match enc::encode(input, sc) {
         Err(e) => {
             ctx.harness_error(format!("R-OPT script refused by R-ENC: {} ({})", e, sc.describe()));
             None
         }
         Ok((w, _)) => match dec::decode(&w) {
-            Ok(d) if d.bytes == input && d.l1_uses == 0 && w.len() == sc.cap => Some(w),
+            Ok(d) if d.bytes == full && d.l1_uses == 0 && w.len() == sc.cap => Some(w),
             _ => {
                 ctx.harness_error(format!("R-OPT/R-ENC stream not confirmed by R-DEC ({})", sc.describe()));
                 None
@@ -41,21 +41,30 @@ pub fn eval(ctx: &mut Ctx, c: &EncCase, tag: &str, use_ropt: bool, strict: bool)
         EncOut::Panic(_) => return ctx.count("encode.panic(C11)"),
         EncOut::BadSpec => return ctx.harness_error("bad list spec"),
     };
-    let n = c.input.len();
+    // macro envelope: the encoder may (and by C16 must) replace header + trailer by one codeword
+    let envelope = c.macros && !c.fnc1 && c.input.len() >= 9 && (c.input.starts_with(inputs::MACRO05) || c.input.starts_with(inputs::MACRO06)) && c.input.ends_with(inputs::TRAIL);
+    let (body, header, hcw): (&[u8], Header, usize) = if envelope {
+        (&c.input[7..c.input.len() - 2], if c.input.starts_with(inputs::MACRO05) { Header::Macro05 } else { Header::Macro06 }, 1)
+    } else if c.fnc1 {
+        (&c.input[..], Header::Fnc1, 1)
+    } else {
+        (&c.input[..], Header::None, 0)
+    };
+    let n = body.len();
     let upper = crate_cap.unwrap_or(usize::MAX);
     // "in particular" bounds: plain ASCII and plain Base256 encodation of the whole message
     let mut bound: Option<(usize, &'static str)> = None;
     if c.mask & 1 != 0 {
-        let al = enc::ascii_len(&c.input, true);
+        let al = enc::ascii_len(body, true) + hcw;
         if let Some(cap) = caps.iter().find(|x| **x >= al) {
             bound = Some((*cap, "plain ASCII"));
         }
     }
     if c.mask & 32 != 0 && n >= 1 && n <= 1555 {
-        let need = 1 + if n <= 249 { 1 } else { 2 } + n;
+        let need = hcw + 1 + if n <= 249 { 1 } else { 2 } + n;
         let mut b = caps.iter().find(|x| **x >= need).copied();
         // length-0 form: fills a symbol exactly
-        if let Some(x) = caps.iter().find(|x| **x == n + 2) {
+        if let Some(x) = caps.iter().find(|x| **x == n + 2 + hcw) {
             b = Some(b.map_or(*x, |y| y.min(*x)));
         }
         if let Some(b) = b {
@@ -67,9 +76,18 @@ pub fn eval(ctx: &mut Ctx, c: &EncCase, tag: &str, use_ropt: bool, strict: bool)
     if let Some((b, what)) = bound {
         if b < upper {
             let d = if refused { "encoder refused the data (TooMuchOrIllegalData)".to_string() } else { format!("encoder chose capacity {}", upper) };
-            return ctx.violation("larger_than_plain_encodation", &case(), format!("{} of the whole message fits capacity {} of the list, but the {}", what, b, d));
+            let msg = format!("{} of the whole message fits capacity {} of the list, but the {}", what, b, d);
+            if !strict {
+                // seed-dependent exploration: extremely rare consequence of the heuristic pruning (class-level finding)
+                ctx.count("explore.bounds_evaluated");
+                return ctx.soft_violation("larger_than_plain_encodation", &case(), msg);
+            }
+            return ctx.violation("larger_than_plain_encodation", &case(), msg);
         }
         ctx.count("bounds_checked");
+        if !strict {
+            ctx.count("explore.bounds_evaluated");
+        }
     }
     if c.mask & 1 == 0 {
         ctx.count("ascii_disabled_bounds_only");
@@ -83,9 +101,9 @@ pub fn eval(ctx: &mut Ctx, c: &EncCase, tag: &str, use_ropt: bool, strict: bool)
         ctx.nontrivial(c.key());
         return;
     }
-    let o = Opts { mask: c.mask, header: Header::None, implicit_pair: false, trailing_254: true };
-    if let Some((cap, sc)) = opt::min_cap(&c.input, &caps, upper, &o) {
-        if let Some(w) = certify(ctx, &c.input, &sc) {
+    let o = Opts { mask: c.mask, header, implicit_pair: false, trailing_254: true };
+    if let Some((cap, sc)) = opt::min_cap(body, &caps, upper, &o) {
+        if let Some(w) = certify(ctx, body, &c.input, &sc) {
             let d = if refused { "the encoder refused the data (TooMuchOrIllegalData)".to_string() } else { format!("the encoder chose capacity {}", upper) };
             if !strict {
                 // seed-dependent exploration: the planner is a heuristic (class-level known finding), judged by rate
@@ -105,7 +123,7 @@ pub fn eval(ctx: &mut Ctx, c: &EncCase, tag: &str, use_ropt: bool, strict: bool)
         ctx.count(&format!("cap.{}", upper));
         // how complete is R-OPT? does it find the crate's own capacity feasible?
         if ctx.evaluations % 8 == 0 {
-            if opt::feasible(&c.input, upper, &o).is_some() {
+            if opt::feasible(body, upper, &o).is_some() {
                 ctx.count("ropt.agrees_on_crate_capacity");
             } else {
                 ctx.count("ropt.crate_better(ropt incomplete or crate uses an idiom R-ENC does not emit)");
@@ -128,7 +146,7 @@ pub fn run(ctx: &mut Ctx) {
         let s = inputs::small_string(i, small_len);
         for m in &masks {
             for l in ["default", "all"] {
-                eval(ctx, &EncCase { input: s.clone(), list: l.into(), mask: *m, macros: false, fnc1: false, eci: None, order: 0 }, "small_scope_exhaustive", true, true);
+                eval(ctx, &EncCase { input: s.clone(), list: l.into(), mask: *m, macros: false, fnc1: false, eci: None, order: 0, prelude: 0, skipdef: false }, "small_scope_exhaustive", true, true);
             }
         }
     }
@@ -175,12 +193,65 @@ pub fn run(ctx: &mut Ctx) {
                 }
                 for l in lists {
                     let use_ropt = input.len() <= 60;
-                    eval(ctx, &EncCase { input: input.clone(), list: l, mask: 63, macros: false, fnc1: false, eci: None, order: 0 }, "capacity_boundary_sweep", use_ropt, true);
+                    eval(ctx, &EncCase { input: input.clone(), list: l, mask: 63, macros: false, fnc1: false, eci: None, order: 0, prelude: 0, skipdef: false }, "capacity_boundary_sweep", use_ropt, true);
                 }
             }
         }
     }
     ctx.exhaustive.insert("capacity_boundary_sweep_48_sizes_x_4_kinds_x_4_deltas".into(), true);
+    // Base256 runs at the length-field edges followed / preceded by runs of another class, sized so that the total
+    // ends near a capacity: the planner's bookkeeping at 249/250 decides later end-of-data rules
+    for l in [248usize, 249, 250, 251, 252] {
+        for (ti, tail_cls) in [Class::Upper, Class::Digit, Class::Lower, Class::EdiPunct].iter().enumerate() {
+            for tl in 0..=60usize {
+                if !ctx.mine(item) {
+                    item += 1;
+                    continue;
+                }
+                item += 1;
+                let mut r = crate::rng::Rng::new(0xB256, "C10-b256mix", (l * 1000 + ti * 100 + tl) as u64);
+                let bin: Vec<u8> = (0..l).map(|i| 0x80 + ((i * 29 + tl) % 120) as u8).collect();
+                let tail: Vec<u8> = (0..tl).map(|_| inputs::class_char(&mut r, *tail_cls)).collect();
+                for order in 0..2 {
+                    let input: Vec<u8> = if order == 0 { [&bin[..], &tail[..]].concat() } else { [&tail[..], &bin[..]].concat() };
+                    eval(ctx, &EncCase { input, list: "default".into(), mask: 63, macros: false, fnc1: false, eci: None, order: 0, prelude: 0, skipdef: false }, "base256_boundary_mix", true, true);
+                }
+            }
+        }
+    }
+    for l in 245..=252usize {
+        for p in 0..=40usize {
+            if !ctx.mine(item) {
+                item += 1;
+                continue;
+            }
+            item += 1;
+            for t in [0usize, 1, 2, 5, 8] {
+                let input = inputs::b256_three_part(p, l, t);
+                eval(ctx, &EncCase { input, list: "default".into(), mask: 63, macros: false, fnc1: false, eci: None, order: 0, prelude: 0, skipdef: false }, "base256_boundary_three_part", true, true);
+            }
+        }
+    }
+    // macro envelope in tiny single-symbol lists (strict): header + trailer must not count against the capacity
+    for (ri, r) in cat::CAT.iter().enumerate() {
+        if r.data > 44 || !ctx.mine(ri) {
+            continue;
+        }
+        for head in [inputs::MACRO05, inputs::MACRO06] {
+            for kind in 0..3 {
+                for delta in 0..4usize {
+                    let blen = match kind {
+                        0 => (2 * (r.data - 1)).saturating_sub(delta),           // digits
+                        1 => ((r.data - 2) * 3 / 2).saturating_sub(delta),       // upper case (C40)
+                        _ => (r.data - 1).saturating_sub(delta),                 // mixed ASCII
+                    };
+                    let body: Vec<u8> = (0..blen).map(|i| match kind { 0 => b'0' + (i % 10) as u8, 1 => b'A' + (i % 26) as u8, _ => b"aA~b{Z|"[i % 7] }).collect();
+                    let input = [head, &body[..], inputs::TRAIL].concat();
+                    eval(ctx, &EncCase { input, list: r.name.into(), mask: 63, macros: true, fnc1: false, eci: None, order: 0, prelude: 0, skipdef: false }, "macro_envelope_small_lists", true, true);
+                }
+            }
+        }
+    }
     // fixed corpus (independent of VERIF_SEED and of the shard count): violations are keyed by exact case
     let ncorpus = 60_000;
     for i in 0..ncorpus {
@@ -196,9 +267,21 @@ pub fn run(ctx: &mut Ctx) {
     let n = ctx.budget(100_000, 10_000_000);
     for _ in 0..n {
         let mut r = ctx.rng.clone();
-        let c = gen_case_c10(&mut r, 3116);
+        let mut c = gen_case_c10(&mut r, 3116);
         ctx.rng = r;
-        let use_ropt = c.input.len() <= 100 || (c.input.len() <= 400 && ctx.rng.chance(1, 10));
+        match ctx.rng.below(12) {
+            0 => {
+                // macro-format messages with macros on: the envelope costs one codeword
+                c.input = inputs::macro_material(&mut ctx.rng, 40);
+                c.macros = true;
+                if ctx.rng.chance(1, 2) {
+                    c.list = ctx.rng.pick(&cat::CAT[..20]).name.to_string();
+                }
+            }
+            1 => c.fnc1 = true,
+            _ => {}
+        }
+        let use_ropt = c.input.len() <= 300 || (c.input.len() <= 1000 && ctx.rng.chance(1, 4));
         eval(ctx, &c, "generated", use_ropt, false);
     }
 }
@@ -248,11 +331,11 @@ pub fn gen_case_c10(rng: &mut crate::rng::Rng, max_len: usize) -> EncCase {
         4 => (inputs::gen_list_spec(rng), inputs::gen_mask(rng) | 1),
         _ => (inputs::gen_list_spec(rng), inputs::gen_mask(rng)),
     };
-    EncCase { input, list, mask, macros: false, fnc1: false, eci: None, order: 0 }
+    EncCase { input, list, mask, macros: false, fnc1: false, eci: None, order: 0, prelude: 0, skipdef: false }
 }
 
 pub fn replay(ctx: &mut Ctx, case: &Case) {
     let c = EncCase::from_case(case);
-    let use_ropt = c.input.len() <= 400;
+    let use_ropt = c.input.len() <= 1000;
     eval(ctx, &c, "replay", use_ropt, true);
 }
